@@ -1,14 +1,17 @@
 #!/bin/bash
-# usage: trymutant.sh <patch.diff> <prop> [<prop>...]  — applies the patch to /repo,
-# runs the quick checks, restores /repo. Prints which checks caught it.
+# usage: trymutant.sh <patch.diff> <prop> [<prop>...]
+# Applies the patch to a scratch worktree of /repo's HEAD (outside /repo and /verif,
+# removed afterwards), runs the quick (or $TIER) checks against that tree, and prints
+# which checks caught it. /repo and /verif/evidence are left untouched, so several
+# trials can run at once.
 PATCH=$(readlink -f "$1"); shift
-cd /repo && git apply "$PATCH" || { echo "patch does not apply"; exit 2; }
+WT=/tmp/wt/try.$$
+git -C /repo worktree add -q --detach "$WT" HEAD || exit 2
+trap 'git -C /repo worktree remove --force "$WT" >/dev/null 2>&1; rm -rf /tmp/wt/tryout.$$' EXIT
+( cd "$WT" && git apply "$PATCH" ) || { echo "patch does not apply"; exit 2; }
 cd /verif
 for p in "$@"; do
-  out=$(./check $p --tier ${TIER:-quick} 2>&1); rc=$?
+  out=$(VERIF_REPO="$WT" VERIF_SCRATCH_OUT=/tmp/wt/tryout.$$ ./check $p --tier ${TIER:-quick} 2>&1); rc=$?
   echo "== $p exit=$rc $(echo "$out" | tail -1)"
   echo "$out" | grep -E "^VIOLATION|^INCONCLUSIVE" | cut -c1-260 | head -4
 done
-git -C /repo checkout -- . ; git -C /repo status --short | head -3
-# evidence files were rewritten by the mutant runs: restore the committed ones
-git -C /verif checkout -- evidence 2>/dev/null
